@@ -25,7 +25,7 @@ DIGEST = rc.comp(1, bytes(32))
 def run(ctx):
     ctx.rule = RULE
     rng = ctx.rng
-    nsch = ctx.n(60, 6000)
+    nsch = ctx.n(45, 6000)
     templates = []
     for _ in range(ctx.n(2, 12)):
         templates += lvs.template_schemas(rng, True)
@@ -118,7 +118,11 @@ def run(ctx):
         pairs = [(p, k) for p in pool for k in pool]
         if len(pairs) > lim // 2:
             pairs = rng.sample(pairs, lim // 2)
-        pairs = targeted + pairs
+        # pairs that a template schema asks for explicitly (its delicate structure exercised whatever the random draw)
+        probes = [([lvs.lit(t) for t in pn], [lvs.lit(t) for t in kn]) for pn, kn in schema.get('probes', [])]
+        if probes:
+            ctx.event('template-probe-pairs', len(probes))
+        pairs = probes + targeted + pairs
         signed_rules = {r['name'] for r in schema['rules'] if r['signers']}
         budget = 6000 * (len(model.nodes) + 1) * (L + 2)
         nfail = 0
